@@ -63,9 +63,42 @@ Step(e) ==
                           /\ l' = l + 1 /\ done' = (l + 1 > Len(Ev))
                           /\ (l + 1 > Len(Ev)) => Out("ok")
 
+(* a flush that is cut short by the death of the process (StoreCrash.tla: nothing of it is durable), followed by a restart: the tables are  *)
+(* as before, the write buffer is gone with the process.  P (for the property named in the trace): what the restarted node reads back is   *)
+(* made of blocks exactly as they were handed over -- those of earlier flushes, possibly those of the cut flush, never a part of one.      *)
+CrashClause(e, p) ==
+  LET rd == e.read
+      ids == {rd[i].id : i \in 1..Len(rd)}
+      pos(x) == CHOOSE i \in 1..Len(rd) : rd[i].id = x
+      H == [x \in DOMAIN wr \cup {buffer[k].id : k \in 1..Len(buffer)} |->
+               IF x \in DOMAIN wr THEN wr[x] ELSE buffer[CHOOSE k \in 1..Len(buffer) : buffer[k].id = x]]
+      pre(c) == p \o ":" \o c
+  IN IF Cardinality(ids) # Len(rd) THEN pre("block_read_back_twice_after_a_crash")
+     ELSE IF ids \ DOMAIN H # {} THEN pre("block_read_back_after_a_crash_that_was_never_written")
+     ELSE IF (DOMAIN wr) \ ids # {} THEN pre("block_of_an_earlier_flush_lost_by_a_crash_during_a_later_one")
+     ELSE IF \E i \in 1..Len(rd) : rd[i].txids # TxIds(H[rd[i].id]) THEN pre("block_read_back_after_a_crash_lacks_transactions")
+     ELSE IF \E i \in 1..Len(rd) : ~rd[i].bytes_equal THEN pre("block_read_back_after_a_crash_differs_from_the_block_handed_over")
+     ELSE IF \E i \in 1..Len(rd) : rd[i].parent # NoB /\ (rd[i].parent \notin ids \/ pos(rd[i].parent) > i) THEN pre("child_read_before_parent_after_a_crash")
+     ELSE IF p = "C01" /\ e.spent_is_unspent THEN "C01:output_spent_by_an_ancestor_is_spendable_again_after_a_crash"
+     ELSE IF p = "C02" /\ e.total_exceeds THEN "C02:total_of_unspent_outputs_exceeds_the_schedule_after_a_crash"
+     ELSE IF ~e.ledger_equal THEN pre("ledger_rebuilt_after_a_crash_differs_from_replay")
+     ELSE ""
+StepCrash(e) ==
+  /\ buffer' = << >> /\ txnOpen' = FALSE /\ UNCHANGED << chainT, locT, outT, inT, wr, tid >>
+  /\ LET c == CrashClause(e, Traces[tid].prop)
+          rs == {[id |-> e.read[i].id, parent |-> e.read[i].parent, height |-> e.read[i].height, txids |-> e.read[i].txids] : i \in 1..Len(e.read)}
+          rowsSame == /\ {e.rows.chain[i] : i \in 1..Len(e.rows.chain)} = Ids(chainT)
+                      /\ {<< e.rows.loc[i][1], e.rows.loc[i][2] >> : i \in 1..Len(e.rows.loc)} = {<< locT[i][1], locT[i][2] >> : i \in 1..Len(locT)}
+                      /\ {<< e.rows.outs[i][1], e.rows.outs[i][2] >> : i \in 1..Len(e.rows.outs)} = outT
+                      /\ {<< e.rows.ins[i][1], e.rows.ins[i][2] >> : i \in 1..Len(e.rows.ins)} = inT
+      IN /\ (~rowsSame => PrintT(ToJson(<< "DRIFT", Traces[tid].id, l, "rows of a flush that was killed before its COMMIT are in the tables (StoreCrash: Atomic)" >>)))
+         /\ (rowsSame /\ rs # ReadSet => PrintT(ToJson(<< "DRIFT", Traces[tid].id, l, "read-back after a crash differs from Store!ReadSet" >>)))
+         /\ IF c # "" THEN Out(c) /\ done' = TRUE /\ l' = l
+            ELSE /\ l' = l + 1 /\ done' = (l + 1 > Len(Ev)) /\ ((l + 1 > Len(Ev)) => Out("ok"))
+
 TInit == /\ tid \in 1..Len(Traces) /\ l = 1 /\ done = FALSE
          /\ SInit(ToB(Traces[tid].genesis))
          /\ wr = (Traces[tid].genesis.id :> ToB(Traces[tid].genesis))
-TNext == ~done /\ l <= Len(Ev) /\ Step(Ev[l])
+TNext == ~done /\ l <= Len(Ev) /\ (IF Ev[l].op = "crash" THEN StepCrash(Ev[l]) ELSE Step(Ev[l]))
 TSpec == TInit /\ [][TNext]_tv
 =============================================================================
